@@ -611,7 +611,10 @@ def buffer_oracle(c, p):
         if k >= len(p["steps"]):
             break
         rc = p["steps"][k][0]
+        unsent = len(p["steps"][k][1]) // 2 if p["steps"][k][1] != "-" else 0
         k += 1
+        if unsent > MAX_BUFFER + 512 and rc not in "DA":
+            return "server keeps working with %d bytes of answers nobody read (cap %d + one answer)" % (unsent, MAX_BUFFER)
         if s[0] == "F" or s[0] == "R":
             pending += s[1] if s[0] == "F" else (unhx(fed.pop(0)) if fed else b"")
             if rc in "DA":
